@@ -89,7 +89,7 @@ def do_tree(ctx, out, spec, typed, styles, rot, full):
         for style in styles:
             k = next(rot)
             repr_ = REPRS[k % len(REPRS)]
-            join = "\n" if k % 5 else ", "
+            join = ["\n", "\n", ", ", "\n", "", "\n", " | "][k % 7]     # also the empty string (lines glued together)
             if not path:
                 titles = [None, False, True, "Title", ""] if full else [[None, False, "Title", True, ""][k % 5]]
                 for title in titles:
@@ -115,7 +115,7 @@ def run(ctx):
     out = core.Outcome(
         rule="every ordered forest with <= N nodes (N=5 quick, 6 thorough; depth up to N) x every start node (tree and node) x every style of the "
         "CONNECTORS table + None + 'list' + custom 4/6-tuples + invalid name / invalid tuple lengths x add_self (Node.format) / title in "
-        "{None, False, True, text, ''} (Tree.format), with repr in {format string, callable, default, custom format} and join in {newline, ', '} rotated; "
+        "{None, False, True, text, ''} (Tree.format), with repr in {format string, callable, default, custom format} and join in {newline, ', ', '', ' | '} rotated; "
         "text equality of the whole output; typed trees included. non-trivial = >= 3 nodes and >= 2 levels; distinct = distinct argument tuple"
     )
     styles = list(CONNECTORS.keys()) + [None, "list", "", "nosuchstyle"] + CUSTOM
